@@ -711,7 +711,7 @@ func run(r *core.Run) {
 			name = "TP-longhand-prefix-forms"
 			e.explorePrefix(name, prefixOperands, append(append([]int{}, base7...), tvTwoSp), []int{tvNone, tvOwn}, []int{tvNone, tvNL, tvSame}, all, workers)
 		} else {
-			e.explorePrefix(name, []string{"a", "a:b", "1", `"s\t"`, "()", "(a)", "(a b)", "'a"}, base7, []int{tvNone}, []int{tvNone}, all, workers)
+			e.explorePrefix(name, []string{"a", "a:b", "1", `"s\t"`, "()", "(a)", "(a b)", "'a", "(a\n)", "[a\n]"}, base7, []int{tvNone}, []int{tvNone}, all, workers)
 		}
 		t1, a1 := sum()
 		perSpace[name] = map[string]any{"texts": t1 - t0, "accepted": a1 - a0, "wall_s": time.Since(start).Seconds(), "cpu_s": cpuSeconds() - cpu0}
